@@ -88,9 +88,34 @@ func gen(t *rapid.T) Case {
 		per = 3e9
 	}
 	gapAlphabet := []int64{0, 0, 1, step / 2, step - 1, step, step + 1, per - 1, per, per + 1, per / 3, 2*per + step/2, 5*per + 3, step / 3, 1}
+	// a third of the cases is built from segments (bursts of many points inside one 'every' step,
+	// steady stretches, silences that empty the window): the ring buffer's wrap / purge / grow states
+	// depend on how many points arrive between two emissions
+	segmented := rapid.IntRange(0, 2).Draw(t, "segmented") == 0
+	mode, left := 0, 0
 	for i := 0; i < n; i++ {
 		c.Order = append(c.Order, rapid.IntRange(0, c.Groups-1).Draw(t, "g"))
-		g := rapid.SampledFrom(gapAlphabet).Draw(t, "gap")
+		var g int64
+		if segmented {
+			if left == 0 {
+				mode = rapid.IntRange(0, 3).Draw(t, "segmode")
+				left = rapid.IntRange(1, 12).Draw(t, "seglen")
+			}
+			left--
+			switch mode {
+			case 0: // burst
+				g = rapid.SampledFrom([]int64{0, 0, 1, step / 16, step / 8}).Draw(t, "bgap")
+			case 1: // steady
+				g = rapid.SampledFrom([]int64{step / 2, step - 1, step, step + 1, per / 3}).Draw(t, "sgap")
+			case 2: // one silence, then a burst
+				g = rapid.SampledFrom([]int64{per, per + 1, 2*per + step/2, 5*per + 3}).Draw(t, "qgap")
+				mode = 0
+			default:
+				g = rapid.SampledFrom(gapAlphabet).Draw(t, "gap")
+			}
+		} else {
+			g = rapid.SampledFrom(gapAlphabet).Draw(t, "gap")
+		}
 		if g < 0 {
 			g = 0
 		}
